@@ -87,6 +87,110 @@ Record sstate := mkSS { ss_props : list (str * schema); ss_order : list str; ss_
 Section Infer.
   Variable o : iopts.
 
+  Definition ovr_of (n : str) : bool := match lookup n (o_schemas o) with Some (Some _) => true | _ => false end.
+
+  Section Body.
+    (* the recursive call, on a component type *)
+    Variable rec : gtype -> res (option schema).
+
+    Definition ty_schema (name : str) : schema := set_type name empty_schema.
+
+    (* one field of a struct *)
+    Definition struct_step (acc : res sstate) (jf : jfield) : res sstate :=
+      st <- acc ;;
+      let fi := jf_info jf in
+      if jf_override jf then
+        match lookup (type_name (jf_decl jf)) (o_schemas o) with
+        | Some (Some ov) =>
+            if negb (str_eqb (s_type ov) (lit "object"%lit)) then Err
+            else if negb (is_zero_schema (set_properties None (set_type [] ov))) then Err
+            else
+              let ps := match s_properties ov with Some p => p | None => [] end in
+              Ok (fold_left (fun (st : sstate) (name : str) =>
+                               match lookup name (ss_props st), lookup name ps with
+                               | None, Some c => mkSS (ss_props st ++ [(name, c)]) (ss_order st ++ [name]) (ss_req st) None
+                               | _, _ => st
+                               end)
+                            (sort_strs (keys ps)) st)
+        | _ => Err
+        end
+      else
+        let info := fieldJSONInfo fi in
+        r <- rec (jf_decl jf) ;;
+        match r with
+        | None => Ok st    (* only with IgnoreInvalidTypes *)
+        | Some fs =>
+            fs' <- (match fi_desc fi with
+                    | None => Ok fs
+                    | Some [] => Err
+                    | Some d => if bad_desc_prefix d then Err else Ok (set_description d fs)
+                    end) ;;
+            Ok (mkSS (map_set (jf_name jf) fs' (ss_props st)) (ss_order st ++ [jf_name jf])
+                     (if mem_str (lit "omitempty"%lit) (ji_settings info) || mem_str (lit "omitzero"%lit) (ji_settings info)
+                      then ss_req st else ss_req st ++ [jf_name jf])
+                     None)
+        end.
+
+    Definition infer_struct (t0 : gtype) : res schema :=
+      st <- fold_left struct_step (json_fields ovr_of t0) (Ok (mkSS [] [] [] None)) ;;
+      let order := match ss_order st with _ :: _ :: _ => dedup_keep_last (ss_order st) | l => l end in
+      Ok (set_propertyOrder (match order with [] => None | _ => Some order end)
+         (set_required (match ss_req st with [] => None | r => Some r end)
+         (set_properties (if has_fields t0 then Some (ss_props st) else None)
+         (set_additionalProperties (Some false_schema) (ty_schema (lit "object"%lit)))))).
+
+    (* the schema of a non-pointer type without a TypeSchemas entry, before "null" is added for pointers *)
+    Definition infer_kind' (t0 : gtype) : res (option schema) :=
+      match kind_of t0 with
+      | KdBool => Ok (Some (ty_schema (lit "boolean"%lit)))
+      | KdInt k => Ok (Some (set_maximum (snd (int_bounds k)) (set_minimum (fst (int_bounds k)) (ty_schema (lit "integer"%lit)))))
+      | KdFloat => Ok (Some (ty_schema (lit "number"%lit)))
+      | KdString => Ok (Some (ty_schema (lit "string"%lit)))
+      | KdIface => Ok (Some empty_schema)
+      | KdBad => if o_ignore o then Ok None else Err
+      | KdPtr => Err (* named pointer types: not generated *)
+      | KdMap =>
+          match strip_named t0 with
+          | TyMap kstr et =>
+              if negb kstr then (if o_ignore o then Ok None else Err)
+              else
+                r <- rec et ;;
+                match r with
+                | None => Ok None
+                | Some ap => Ok (Some (set_additionalProperties (Some ap) (ty_schema (lit "object"%lit))))
+                end
+          | _ => Err
+          end
+      | KdSlice | KdArray =>
+          match strip_named t0 with
+          | TySlice et =>
+              r <- rec et ;;
+              match r with
+              | None => Ok None
+              | Some it =>
+                  let s0 := if o_tsnull o then ty_schema (lit "array"%lit)
+                            else set_types (Some [null_s; lit "array"%lit]) empty_schema in
+                  Ok (Some (set_items (Some it) s0))
+              end
+          | TyArray len et =>
+              r <- rec et ;;
+              match r with
+              | None => Ok None
+              | Some it =>
+                  Ok (Some (set_maxItems (Some (Z.of_nat len)) (set_minItems (Some (Z.of_nat len))
+                           (set_items (Some it) (ty_schema (lit "array"%lit))))))
+              end
+          | _ => Err
+          end
+      | KdStruct => s <- infer_struct t0 ;; Ok (Some s)
+      end.
+    Definition infer_kind (t0 : gtype) : res (option schema) :=
+      match t0 with
+      | TyRec _ => Err
+      | _ => infer_kind' t0
+      end.
+  End Body.
+
   Fixpoint infer (fuel : nat) (seen : list str) (t : gtype) : res (option schema) :=
     match fuel with
     | O => OutOfFuel
@@ -100,97 +204,8 @@ Section Infer.
           match (if nonempty nm then (match lookup nm (o_schemas o) with Some x => x | None => None end) else None) with
           | Some ov => Ok (Some (override_null o allowNull ov))
           | None =>
-              let finish (s : schema) : res (option schema) := Ok (Some (with_null allowNull s)) in
-              let ty (name : str) := set_type name empty_schema in
-              match t0 with
-              | TyRec _ => Err
-              | _ =>
-              match kind_of t0 with
-              | KdBool => finish (ty (lit "boolean"%lit))
-              | KdInt k => finish (set_maximum (snd (int_bounds k)) (set_minimum (fst (int_bounds k)) (ty (lit "integer"%lit))))
-              | KdFloat => finish (ty (lit "number"%lit))
-              | KdString => finish (ty (lit "string"%lit))
-              | KdIface => finish empty_schema
-              | KdBad => if o_ignore o then Ok None else Err
-              | KdPtr => Err (* named pointer types: not generated *)
-              | KdMap =>
-                  match strip_named t0 with
-                  | TyMap kstr et =>
-                      if negb kstr then (if o_ignore o then Ok None else Err)
-                      else
-                        r <- infer n seen' et ;;
-                        match r with
-                        | None => Ok None
-                        | Some ap => finish (set_additionalProperties (Some ap) (ty (lit "object"%lit)))
-                        end
-                  | _ => Err
-                  end
-              | KdSlice | KdArray =>
-                  match strip_named t0 with
-                  | TySlice et =>
-                      r <- infer n seen' et ;;
-                      match r with
-                      | None => Ok None
-                      | Some it =>
-                          let s0 := if o_tsnull o then ty (lit "array"%lit)
-                                    else set_types (Some [null_s; lit "array"%lit]) empty_schema in
-                          finish (set_items (Some it) s0)
-                      end
-                  | TyArray len et =>
-                      r <- infer n seen' et ;;
-                      match r with
-                      | None => Ok None
-                      | Some it =>
-                          finish (set_maxItems (Some (Z.of_nat len)) (set_minItems (Some (Z.of_nat len))
-                                   (set_items (Some it) (ty (lit "array"%lit)))))
-                      end
-                  | _ => Err
-                  end
-              | KdStruct =>
-                  let ovr (n : str) := match lookup n (o_schemas o) with Some (Some _) => true | _ => false end in
-                  let jfs := json_fields ovr t0 in
-                  let step (acc : res sstate) (jf : jfield) : res sstate :=
-                    st <- acc ;;
-                    let fi := jf_info jf in
-                    if jf_override jf then
-                      match lookup (type_name (jf_decl jf)) (o_schemas o) with
-                      | Some (Some ov) =>
-                          if negb (str_eqb (s_type ov) (lit "object"%lit)) then Err
-                          else if negb (is_zero_schema (set_properties None (set_type [] ov))) then Err
-                          else
-                            let ps := match s_properties ov with Some p => p | None => [] end in
-                            Ok (fold_left (fun (st : sstate) (name : str) =>
-                                             match lookup name (ss_props st), lookup name ps with
-                                             | None, Some c => mkSS (ss_props st ++ [(name, c)]) (ss_order st ++ [name]) (ss_req st) None
-                                             | _, _ => st
-                                             end)
-                                          (sort_strs (keys ps)) st)
-                      | _ => Err
-                      end
-                    else
-                      let info := fieldJSONInfo fi in
-                      r <- infer n seen' (jf_decl jf) ;;
-                      match r with
-                      | None => Ok st    (* only with IgnoreInvalidTypes *)
-                      | Some fs =>
-                          fs' <- (match fi_desc fi with
-                                  | None => Ok fs
-                                  | Some [] => Err
-                                  | Some d => if bad_desc_prefix d then Err else Ok (set_description d fs)
-                                  end) ;;
-                          Ok (mkSS (map_set (jf_name jf) fs' (ss_props st)) (ss_order st ++ [jf_name jf])
-                                   (if mem_str (lit "omitempty"%lit) (ji_settings info) || mem_str (lit "omitzero"%lit) (ji_settings info)
-                                    then ss_req st else ss_req st ++ [jf_name jf])
-                                   None)
-                      end in
-                  st <- fold_left step jfs (Ok (mkSS [] [] [] None)) ;;
-                  let order := match ss_order st with _ :: _ :: _ => dedup_keep_last (ss_order st) | l => l end in
-                  finish (set_propertyOrder (match order with [] => None | _ => Some order end)
-                          (set_required (match ss_req st with [] => None | r => Some r end)
-                          (set_properties (match struct_fields t0 with [] => None | _ => Some (ss_props st) end)
-                          (set_additionalProperties (Some false_schema) (ty (lit "object"%lit))))))
-              end
-              end
+              r <- infer_kind (infer n seen') t0 ;;
+              Ok (option_map (with_null allowNull) r)
           end
     end.
 End Infer.
